@@ -28,6 +28,7 @@ META = {
 }
 
 THEOREMS = [
+    "C15_atomic_written",
     "C15_guards",
     "C15_atomic",
     "C15_no_temp_left",
